@@ -24,10 +24,10 @@ import (
 // the reason why the written key differs or the later use only needs fields the callee does not change.
 
 type recordKind struct {
-	typ     string // typeKey of the by-value record
-	class   string // key constructor of its store entries
-	setter  string // primitive setter (stores its argument unmodified)
-	argIdx  int    // index of the record argument of the setter (without receiver)
+	typ    string // typeKey of the by-value record
+	class  string // key constructor of its store entries
+	setter string // primitive setter (stores its argument unmodified)
+	argIdx int    // index of the record argument of the setter (without receiver)
 	// shared: the record is handed around through a pointer, so a callee's writes through the SAME object are
 	// visible to the caller; only callees that re-read the record from the store (rereaders in their call tree)
 	// and write it leave the caller's object stale
@@ -44,12 +44,12 @@ var recordKinds = []recordKind{
 // reviewed candidates: "<function> | <record local> | <writer callee> | <use>" -> reason
 var staleExceptions = map[string]string{
 	"keeper.Keeper.Redelegate | result of GetAssetByDenom | keeper.Keeper.ClearDustDelegation | call upsertDelegationWithNewTokens": "ClearDustDelegation rewrites the asset only through ResetAssetAndValidators when asset.TotalTokens is zero; a redelegation does not change TotalTokens and ValidateDelegatedAmount has just shown that the source position holds coin.Amount > 0 tokens of it, so the reset cannot fire; the delegation entry it deletes is the source position, not the asset",
-	"keeper.Keeper.Redelegate | result of GetDelegation | keeper.Keeper.ClaimDelegationRewards | call ValidateDelegatedAmount": "the copy is the SOURCE position re-read after its own settlement; the later ClaimDelegationRewards call settles the DESTINATION position (srcVal == dstVal is rejected at entry), a different GetDelegationKey",
-	"keeper.Keeper.Redelegate | result of GetDelegation | keeper.Keeper.ClaimDelegationRewards | call reduceDelegationShares": "as above: source position copy, destination position written",
-	"keeper.Keeper.Redelegate | dstVal | keeper.Keeper.ClearDustDelegation | load for call upsertDelegationWithNewTokens": "ClearDustDelegation re-reads and rewrites validator records only in ResetAssetAndValidators, i.e. when asset.TotalTokens is zero; impossible in a redelegation (see the asset entry above)",
-	"keeper.Keeper.Redelegate | dstVal | keeper.Keeper.ClearDustDelegation | load for call updateValidatorShares":         "as above: the reset cannot fire in a redelegation",
-	"keeper.Keeper.Redelegate | dstVal | keeper.Keeper.ClearDustDelegation | load for read of .Validator":                 "event attribute: operator address of the staking validator snapshot, not the alliance record",
-	"keeper.Keeper.Redelegate | srcVal | keeper.Keeper.ClearDustDelegation | load for read of .Validator":                 "event attribute: operator address of the staking validator snapshot, not the alliance record",
+	"keeper.Keeper.Redelegate | result of GetDelegation | keeper.Keeper.ClaimDelegationRewards | call ValidateDelegatedAmount":      "the copy is the SOURCE position re-read after its own settlement; the later ClaimDelegationRewards call settles the DESTINATION position (srcVal == dstVal is rejected at entry), a different GetDelegationKey",
+	"keeper.Keeper.Redelegate | result of GetDelegation | keeper.Keeper.ClaimDelegationRewards | call reduceDelegationShares":       "as above: source position copy, destination position written",
+	"keeper.Keeper.Redelegate | dstVal | keeper.Keeper.ClearDustDelegation | load for call upsertDelegationWithNewTokens":           "ClearDustDelegation re-reads and rewrites validator records only in ResetAssetAndValidators, i.e. when asset.TotalTokens is zero; impossible in a redelegation (see the asset entry above)",
+	"keeper.Keeper.Redelegate | dstVal | keeper.Keeper.ClearDustDelegation | load for call updateValidatorShares":                   "as above: the reset cannot fire in a redelegation",
+	"keeper.Keeper.Redelegate | dstVal | keeper.Keeper.ClearDustDelegation | load for read of .Validator":                           "event attribute: operator address of the staking validator snapshot, not the alliance record",
+	"keeper.Keeper.Redelegate | srcVal | keeper.Keeper.ClearDustDelegation | load for read of .Validator":                           "event attribute: operator address of the staking validator snapshot, not the alliance record",
 }
 
 func init() {
